@@ -230,6 +230,26 @@ def map2Set (m : Map2) (a b : Text) (v : Int) : Option Map2 :=
 /-- `m[a][b]++` -/
 def map2Inc (m : Map2) (a b : Text) : Option Map2 := map2Set m a b (map2Get m a b + 1)
 
+/-- the type `set` of snaps/utils.go (`map[string]struct{}`): the keys, without duplicates -/
+abbrev GoSet := List Text
+/-- `s[x] = struct{}{}` -/
+def setAdd (s : GoSet) (x : Text) : GoSet := if s.contains x then s else s ++ [x]
+/-- `s.Has(x)` -/
+def setHas (s : GoSet) (x : Text) : Bool := s.contains x
+
+/-- `map[string]string` -/
+abbrev SMap := List (Text × Text)
+def smapGet : SMap → Text → Text
+  | [], _ => []
+  | (k', v) :: m, k => if k' = k then v else smapGet m k
+def smapHas (m : SMap) (k : Text) : Bool := m.any (·.1 = k)
+def smapSet : SMap → Text → Text → SMap
+  | [], k, v => [(k, v)]
+  | (k', v') :: m, k, v => if k' = k then (k, v) :: m else (k', v') :: smapSet m k v
+
+/-- `a / b` on `int`: truncated division; `none` = panic: integer divide by zero -/
+def intDiv (a b : Int) : Option Int := if b = 0 then none else some (Int.tdiv a b)
+
 /-- `syncRegistry` (the embedded mutex is not state of the sequential semantics) -/
 structure Registry where
   running : Map2 := []
